@@ -86,6 +86,8 @@ static int nthreads = 1;
 static uint64_t spin_epoch[MAXT];
 static uint64_t unreg_run[MAXT]; /* plain accesses to unregistered memory since the last scheduling point */
 #define UNREG_LIMIT 2000000
+#define UNREG_HITS 25
+static uint64_t unreg_hits[MAXT], unreg_keep[MAXT];
 static uint64_t epoch = 1;
 static uint64_t own_progress[MAXT];
 #define PROGRESS() do { epoch++; if (my_tid >= 0) own_progress[my_tid]++; } while (0)
@@ -391,8 +393,27 @@ static const char* symname(void* pc) {
 }
 
 static size_t fmt_pos; /* log position of the event being formatted */
+static int fmt_numeric; /* the cell being formatted holds numbers, never pointers (VR_NUMCELLS) */
+/* VR_NUMCELLS=name,name,...: cells whose values are plain numbers.  A state word or counter whose
+ * value happens to fall inside the address range of a registered object (a thousand fibers spread
+ * over hundreds of megabytes of heap) must not be printed as a pointer into that object. */
+static int cell_is_numeric(const char* name) {
+  static const char* list;
+  if (!list) {
+    list = getenv("VR_NUMCELLS");
+    if (!list) list = "";
+  }
+  size_t l = strlen(name);
+  for (const char* p = list; *p;) {
+    const char* e = strchr(p, ',');
+    size_t n = e ? (size_t)(e - p) : strlen(p);
+    if (n == l && !memcmp(p, name, n)) return 1;
+    p += n + (e ? 1 : 0);
+  }
+  return 0;
+}
 static void fmtval(char* out, size_t n, uint64_t v) {
-  if (v >= 4096) {
+  if (v >= 4096 && !fmt_numeric) {
     for (int i = nobj - 1; i >= 0; i--)
       if (v >= objs[i].lo && v < objs[i].hi && objs[i].born <= fmt_pos && fmt_pos < objs[i].died) {
         if (v == objs[i].lo) snprintf(out, n, "@%s", objs[i].name);
@@ -437,6 +458,7 @@ static void dump_log(const char* status) {
       }
     } else
       strcpy(cn, "-");
+    fmt_numeric = e->cell >= 0 && cell_is_numeric(cells[e->cell].name);
     fmtval(a, sizeof a, e->a);
     fmtval(b, sizeof b, e->b);
     fmtval(c, sizeof c, e->c);
@@ -574,6 +596,8 @@ static int pick(int me, int spin) {
 static void sp(int spin, int post_write) {
   if (my_tid < 0 || finished_flag) return;
   sp_count++;
+  unreg_keep[my_tid] = unreg_hits[my_tid];
+  unreg_hits[my_tid] = 0;
   /* a thread that only reads registered cells for a long stretch is polling for another
    * thread's progress (e.g. the yield-retry loop of fiber_manager_wake_from_mpsc_queue when
    * its own run queue is empty): treat it as spinning so strict-priority / freeze schedules
@@ -699,9 +723,13 @@ static inline void plain(void* addr, int size, int is_write) {
      * nothing) would keep the baton for ever: give the others a turn */
     if (++unreg_run[t] > UNREG_LIMIT) {
       unreg_run[t] = 0;
+      /* dozens of such stretches in a row without any other scheduling point in between: the
+       * thread is stuck in a loop nothing will ever end (e.g. polling a freed object) */
+      if (++unreg_hits[t] > UNREG_HITS) vr_finish(done_flag ? "OK" : "HANG");
       in_rt = 1;
       sp(1, 0);
       in_rt = 0;
+      unreg_hits[t] = unreg_keep[t]; /* sp() reset the counter: this was no real progress */
     }
     return;
   }
